@@ -231,6 +231,48 @@ Section Lift.
     rewrite (circuit_from_lift n ops _ U (shape_mid n) Hc).
     rewrite E, mev_mscale, ev_kw. reflexivity.
   Qed.
+  (* ---- Kronecker product and general products (used by the MOV rows) ---- *)
+  Definition rkron (A B : rmat) : rmat :=
+    flat_map (fun ra => map (fun rb => flat_map (fun x => rvscale x rb) ra) B) A.
+  Definition rket0 : rmat := [[rI]; [rO]].
+
+  Lemma vev_flat_scale : forall ra rb,
+    vev (flat_map (fun x => vscale x rb) ra) = flat_map (fun x => rvscale x (vev rb)) (vev ra).
+  Proof.
+    induction ra as [|x ra IH]; intros rb; cbn [flat_map map]; [reflexivity|].
+    rewrite map_app, vev_vscale, IH. reflexivity.
+  Qed.
+
+  Lemma mev_kron : forall A B, mev (kron A B) = rkron (mev A) (mev B).
+  Proof.
+    induction A as [|ra A IH]; intros B; unfold kron, rkron in *; cbn [flat_map map]; [reflexivity|].
+    rewrite map_app, IH. f_equal. rewrite !map_map. apply map_ext. intros rb. apply vev_flat_scale.
+  Qed.
+
+  Lemma mev_ket0 : mev ket0 = rket0.
+  Proof. unfold ket0, rket0, k0, k1. cbn [map]. rewrite ev_one, ev_zero. reflexivity. Qed.
+
+  Lemma shape_of_dims : forall r c A, dims_ok (S r) c A = true -> shape c A.
+  Proof.
+    intros r c A H. unfold dims_ok in H. apply andb_true_iff in H. destruct H as [H1 H2].
+    apply Nat.eqb_eq in H1. rewrite forallb_forall in H2. split.
+    - apply Forall_forall. intros row Hr. apply Nat.eqb_eq. apply H2. exact Hr.
+    - destruct A as [|row A]; [discriminate|]. cbn. apply Nat.eqb_eq. apply H2. left. reflexivity.
+  Qed.
+
+  (* products of arbitrary K32 matrices of matching shape *)
+  Theorem mmul_lift_dims : forall r c A B, dims_ok (S r) c B = true ->
+    mev (mmul A B) = rmmul (mev A) (mev B).
+  Proof.
+    intros r c A B H. destruct (mmul_lift c A B (shape_of_dims r c B H)) as [E _]. exact E.
+  Qed.
+
+  Theorem circuit_image : forall n ops U, circuit n ops = Some U -> rcircuit n ops = Some (mev U).
+  Proof.
+    intros n ops U Hc. unfold rcircuit, circuit in *. rewrite <- mev_mid.
+    exact (circuit_from_lift n ops _ U (shape_mid n) Hc).
+  Qed.
+
 End Lift.
 
 Definition circuit_lift_statement : Prop :=
